@@ -45,6 +45,11 @@ def run(rep, tier, seed):
         roots = rnd.sample(roots, 1500)
     for j, c in enumerate(roots):
         docs.append(("root:" + c["rootattrs"], root_document(c), dict(textc.CONFIGS[j % len(textc.CONFIGS)])))
+    # roots declaring a default namespace that is not exactly the SVG one
+    for j, ns in enumerate(["https://www.w3.org/2000/svg", "http://www.w3.org/2000/svg/", "urn:other"]):
+        docs.append(("root:foreign-xmlns", f'<svg xmlns="{ns}"><rect wh="2" xy="1 1" text="t"/></svg>', dict(textc.CONFIGS[j])))
+        docs.append(("root:foreign-xmlns", f'<svg xmlns="{ns}" xmlns:xlink="http://www.w3.org/1999/xlink" width="9"><g><rect wh="2" class="d-fill-red"/></g></svg>',
+                     dict(textc.CONFIGS[j + 3])))
     # programs of the Interp families (loops, reuse, scopes)
     for fam in ("loop", "reuse", "scope"):
         rr = vlib.run_tlc("MC_Interp", interp.mc_cfg(fam, export=True, MaxNodes=2 if fam == "loop" else 3), f"c05-{fam}", workers=8, timeout=600)
